@@ -322,3 +322,20 @@ func expandedReturns(fr *Frame, depth int) []retSite {
 	}
 	return out
 }
+
+// calleeOf: the function a call instruction calls, seeing through method values (closures over the
+// receiver) and method expressions (thunks).
+func calleeOf(ci ssa.CallInstruction) *ssa.Function {
+	sc := ci.Common().StaticCallee()
+	for i := 0; i < 2 && sc != nil; i++ {
+		if !strings.HasPrefix(sc.Synthetic, "bound method wrapper") && !strings.HasPrefix(sc.Synthetic, "thunk for") {
+			break
+		}
+		inner := soleCall(sc)
+		if inner == nil || inner.Common().StaticCallee() == nil {
+			break
+		}
+		sc = inner.Common().StaticCallee()
+	}
+	return sc
+}
